@@ -52,6 +52,9 @@ type unode struct {
 	subj  string
 	spki  string
 	rep   *stdx509.Certificate // some certificate carrying this key (for stdlib verification)
+	// unusable != "": by construction the key can verify no signature at all (a key-agreement key, an algorithm
+	// nobody implements) or none of the signatures in this universe (a key of another family than the issuer keys)
+	unusable string
 }
 
 type universe struct {
@@ -64,6 +67,7 @@ type universe struct {
 	byFp     map[string]int
 	nodeByID map[string]int
 	nodeBySK map[string]int
+	unusable []string // evidence: the unusable-key nodes and how zcrypto sees their keys
 }
 
 // key fixture names per shape: K1,K2 (subject R), K3,K4 (subject I), K5 (X), K6 (S).
@@ -98,6 +102,7 @@ func buildUniverse(c *ev.Ctx, shape string) *universe {
 		}
 		return m
 	}
+	unusableKind := map[string]string{} // node label -> kind of unusable key
 	add := func(name, what, nodeLabel string, der []byte) {
 		z, err := zx509.ParseCertificate(der)
 		if err != nil {
@@ -132,7 +137,7 @@ func buildUniverse(c *ev.Ctx, shape string) *universe {
 				c.Broken("%s: zcrypto SPKISubjectFingerprint is not SHA-256(SPKI||subject): the node identity used by FindNode changed", name)
 			}
 			rawID, _ := hex.DecodeString(id)
-			u.nodes = append(u.nodes, &unode{id: id, rawID: rawID, label: nodeLabel, subj: uc.subj, spki: uc.spki, rep: s})
+			u.nodes = append(u.nodes, &unode{id: id, rawID: rawID, label: nodeLabel, subj: uc.subj, spki: uc.spki, rep: s, unusable: unusableKind[nodeLabel]})
 			u.nodeBySK[sk] = ni
 			u.nodeByID[id] = ni
 		}
@@ -164,6 +169,40 @@ func buildUniverse(c *ev.Ctx, shape string) *universe {
 	bad[len(bad)-1] ^= 0x5a
 	bad[len(bad)-9] ^= 0xa5
 
+	// Nodes that carry the NAME of a real issuer and a key that cannot be one: whoever searches an issuer among the
+	// nodes of a name meets them before, between or after the real issuer, depending on the insertion order.
+	splice := func(cn string, ca bool, parent *fx.Cert, parentKey string, repl map[int][]byte) []byte {
+		t := mint(cn, "c10-template", ca, parent)
+		der, err := respliced(t.DER, repl, parentKey)
+		if err != nil {
+			c.Broken("splicing %s: %v", cn, err)
+		}
+		return der
+	}
+	fam1, fam2 := "rsa1024", "p256" // keys of a family other than that of K1..K6
+	switch shape {
+	case "rsa":
+		fam1 = "c10-uf"
+	case "ecdsa":
+		fam2 = "c10-uf"
+	}
+	Ux := splice("R", true, R, k1, map[int][]byte{6: spkiX25519()})
+	Uo := splice("R", true, R, k1, map[int][]byte{6: spkiUnknownOID()})
+	Ud := splice("R", true, R, k1, map[int][]byte{6: spkiDSA()})
+	Uf := mint("R", fam1, true, R)
+	Ug := mint("R", fam2, true, R)
+	Vx := splice("I", true, R, k1, map[int][]byte{6: spkiX25519()})
+	Vo := splice("I", true, S, k6, map[int][]byte{6: spkiUnknownOID()})
+	// Bu: a properly made child of N_I/K3 whose signature ALGORITHM nobody knows: no key verifies it, whatever the key.
+	Bu := splice("Bu", false, I, k3, map[int][]byte{2: algUnknownSig()})
+	unusableKind["N_R/X25519"] = "X25519 key"
+	unusableKind["N_R/unknown-SPKI"] = "unknown SPKI algorithm"
+	unusableKind["N_R/DSA"] = "key of another family"
+	unusableKind["N_R/F1"] = "key of another family"
+	unusableKind["N_R/F2"] = "key of another family"
+	unusableKind["N_I/X25519"] = "X25519 key"
+	unusableKind["N_I/unknown-SPKI"] = "unknown SPKI algorithm"
+
 	add("R", "N_R/K1 self-signed", "N_R/K1", R.DER)
 	add("Rp", "N_R/K2 signed by K1 (self-issued rollover)", "N_R/K2", Rp.DER)
 	add("R2", "N_R/K2 self-signed", "N_R/K2", R2.DER)
@@ -179,6 +218,14 @@ func buildUniverse(c *ev.Ctx, shape string) *universe {
 	add("D", "leaf by X(K5): issuer usually arrives later", "N_D", D.DER)
 	add("Bad", "leaf naming N_I as issuer, signature corrupted", "N_B", bad)
 	add("Y", "N_Y/K3 by R(K1): the key of N_I/K3 under another subject name", "N_Y/K3", Y.DER)
+	add("Ux", "N_R with an X25519 SubjectPublicKeyInfo, by R(K1)", "N_R/X25519", Ux)
+	add("Uo", "N_R with a SubjectPublicKeyInfo of an unknown algorithm OID, by R(K1)", "N_R/unknown-SPKI", Uo)
+	add("Uf", "N_R with a "+fam1+" key (other family than K1..K6), by R(K1)", "N_R/F1", Uf.DER)
+	add("Ug", "N_R with a "+fam2+" key (other family than K1..K6), by R(K1)", "N_R/F2", Ug.DER)
+	add("Ud", "N_R with a DSA key, by R(K1)", "N_R/DSA", Ud)
+	add("Vx", "N_I with an X25519 SubjectPublicKeyInfo, by R(K1)", "N_I/X25519", Vx)
+	add("Vo", "N_I with a SubjectPublicKeyInfo of an unknown algorithm OID, by S(K6)", "N_I/unknown-SPKI", Vo)
+	add("Bu", "leaf by I(K3) under a signature algorithm OID nobody knows", "N_Bu", Bu)
 
 	// verification matrix with the standard library only
 	u.ver = make([][]bool, len(u.nodes))
@@ -191,7 +238,11 @@ func buildUniverse(c *ev.Ctx, shape string) *universe {
 	}
 	// sanity of the fixture itself (a wrong fixture would make the search vacuous)
 	want := map[string]string{"R": "R", "Rp": "R", "R2": "R2", "Rx": "R2", "S": "S", "I": "R", "Ib": "R", "Ix": "S", "I2": "R",
-		"L": "I", "L2": "I2", "X": "R", "D": "X", "Bad": "", "Y": "R"}
+		"L": "I", "L2": "I2", "X": "R", "D": "X", "Bad": "", "Y": "R",
+		"Ux": "R", "Uo": "R", "Uf": "R", "Ug": "R", "Ud": "R", "Vx": "R", "Vo": "S", "Bu": ""}
+	if len(want) != len(u.certs) {
+		c.Broken("fixture %s: %d certificates, %d expectations", shape, len(u.certs), len(want))
+	}
 	for name, signer := range want {
 		ci := u.byName[name]
 		n := 0
@@ -205,6 +256,31 @@ func buildUniverse(c *ev.Ctx, shape string) *universe {
 		}
 		if (signer == "") != (n == 0) {
 			c.Broken("fixture %s/%s: %d verifying nodes in the full universe", shape, name, n)
+		}
+	}
+	// the unusable-key nodes: verify nothing (stdlib), belong to a public-key algorithm other than that of the
+	// key that signed them, and (evidence) what zcrypto makes of the key
+	nUnusable := 0
+	for ni, n := range u.nodes {
+		if n.unusable == "" {
+			continue
+		}
+		nUnusable++
+		for ci := range u.certs {
+			if u.ver[ni][ci] {
+				c.Broken("fixture %s: node %s is meant to verify nothing but verifies %s", shape, n.label, u.certs[ci].name)
+			}
+		}
+		if n.rep.PublicKeyAlgorithm == u.certs[u.byName["R"]].std.PublicKeyAlgorithm {
+			c.Broken("fixture %s: node %s has a key of the issuers' own family", shape, n.label)
+		}
+	}
+	if nUnusable != len(unusableKind) {
+		c.Broken("fixture %s: %d unusable-key nodes, want %d", shape, nUnusable, len(unusableKind))
+	}
+	for _, uc := range u.certs {
+		if n := u.nodes[uc.node]; n.unusable != "" {
+			u.unusable = append(u.unusable, fmt.Sprintf("%s (%s): %s; zcrypto parses the key as %T", n.label, uc.name, n.unusable, uc.z.PublicKey))
 		}
 	}
 	if yn, l := u.certs[u.byName["Y"]].node, u.byName["L"]; !u.ver[yn][l] || u.nodes[yn].subj == u.certs[l].iss {
@@ -806,6 +882,35 @@ func (u *universe) classify(before status, o op) []string {
 			out = append(out, "op: "+kind+" new edge, "+nn+", dangling: no node with the issuer name")
 		}
 	}
+	// nodes that carry the issuer's name but a key that cannot verify (the issuer search has to look past them)
+	{
+		kinds := map[string]bool{}
+		usable := false
+		for ni, n := range u.nodes {
+			if pnAfter[ni] && n.subj == uc.iss {
+				if n.unusable != "" {
+					kinds[n.unusable] = true
+				} else {
+					usable = true
+				}
+			}
+		}
+		var ks []string
+		for k := range kinds {
+			ks = append(ks, k)
+		}
+		sort.Strings(ks)
+		for _, k := range ks {
+			switch {
+			case len(cands) > 0:
+				out = append(out, "issuer search: issuer found; its name is also carried by a node with "+articleFor(k))
+			case usable:
+				out = append(out, "issuer search: none verifies; the issuer name is carried by usable keys and by a node with "+articleFor(k))
+			default:
+				out = append(out, "issuer search: none verifies; the issuer name is carried only by node(s) that cannot verify, one with "+articleFor(k))
+			}
+		}
+	}
 	if newNode {
 		adopted, refused := 0, 0
 		for ci, v := range before {
@@ -826,6 +931,9 @@ func (u *universe) classify(before status, o op) []string {
 		}
 		if refused > 0 {
 			out = append(out, "fix-up: edges waiting for that name which the new key does not verify stay dangling")
+			if k := u.nodes[uc.node].unusable; k != "" {
+				out = append(out, "fix-up: the new node has "+articleFor(k)+": every edge waiting for its name stays dangling")
+			}
 		}
 	}
 	return out
@@ -937,6 +1045,13 @@ func (u *universe) run(c *ev.Ctx, bk *book, ops []op, hist []int, report bool) (
 	return st.key() + cn, true
 }
 
+func articleFor(kind string) string {
+	if strings.HasPrefix(kind, "unknown") {
+		return "an " + kind
+	}
+	return "a " + kind
+}
+
 func (u *universe) legend(st status) string {
 	var l []string
 	for ci, v := range st {
@@ -980,6 +1095,15 @@ var handPicked = [][]string{
 	{"Rp", "Rx", "Ib", "Ix", "L2", "D", "Bad"}, // mostly dangling
 	{"R", "Y", "I", "L", "Bad", "Ib", "I2"},    // one key under two names: N_Y/K3 verifies L but is not named by it; N_I/K4 is named but does not verify
 	{"S", "Y", "Ix", "L", "L2", "X", "D"},      // the same with N_I/K3 arriving through the cross-sign only, Y dangling (no R)
+}
+
+// sub-universes around the nodes whose key cannot verify (run first in every tier)
+var unusableSubs = [][]string{
+	{"Ux", "Uo", "Uf", "R", "I", "X", "L"},    // N_R: the real key K1 among an X25519, an unknown-algorithm and an other-family key; six certificates name N_R
+	{"Vx", "Vo", "I", "I2", "L", "Bu", "R"},   // N_I: the real key K3 among X25519, unknown-algorithm and a real key that does not verify; a child nobody can verify
+	{"R2", "Rp", "Rx", "Ux", "Uo", "I", "Ud"}, // two real keys of N_R (rollover pair, K1 only through Rx) and three unusable ones
+	{"Ug", "Ud", "Uf", "R", "Vx", "L", "I"},   // every other-family key; an unusable node on both levels of one chain
+	{"S", "Ix", "Vo", "Vx", "Bu", "L", "Bad"}, // no N_R at all: N_I/K3 through the cross-sign, children that verify under K3 / under no key / under no algorithm
 }
 
 func (u *universe) opsFor(names []string, c *ev.Ctx) []op {
@@ -1042,17 +1166,19 @@ func main() {
 
 		ed := uni("ed25519")
 		nU := len(ed.certs)
-		c.Rule("explicit-state BFS over histories (with repetition) of {AddCert(c),AddRoot(c)} on the real verifier.Graph: (A) c in a 7-element sub-universe of the 15-certificate universe, 14 ops, to depth 8 (closes: 3^7 states); (B) c in the whole universe, 30 ops, to depth 4 (quick) / 7 (thorough: contains the depth-7 search of all C(15,7) sub-universes); the first operation of a history on a certificate passes one parsed *x509.Certificate, every later operation on it and every IsRoot query passes a second object parsed from the same DER; a state is the canonical VerifDump (nodes, edges with child/issuer/root, adjacency sets, indexes; insertion order of nodesBySubject sorted away) + the (certificate,root) set; distinct = distinct states")
+		c.Rule(fmt.Sprintf("explicit-state BFS over histories (with repetition) of {AddCert(c),AddRoot(c)} on the real verifier.Graph: (A) c in a 7-element sub-universe of the %d-certificate universe (5 sub-universes around same-name nodes whose key cannot verify - X25519, unknown SPKI algorithm, RSA/ECDSA/Ed25519/DSA key of another family than the signature - and a child under an unknown signature algorithm, run first; then 14 around chains, cross-signs, rollovers, dangling and same-name CAs), 14 ops, to depth 8 (closes: 3^7 states); (B) c in the whole universe, %d ops, to depth 3 (quick) / 5 (thorough), and c among the 15 certificates with usable keys and known signature algorithm, 30 ops, to depth 4 (quick) / 7 (thorough: contains the depth-7 search of all C(15,7) sub-universes); the first", nU, 2*nU) + ` operation of a history on a certificate passes one parsed *x509.Certificate, every later operation on it and every IsRoot query passes a second object parsed from the same DER; a state is the canonical VerifDump (nodes, edges with child/issuer/root, adjacency sets, indexes; insertion order of nodesBySubject sorted away) + the (certificate,root) set; distinct = distinct states`)
 		c.Assume("reference = the graph the statement defines for the SET {(certificate, ever root)}: computed with crypto/x509 parsing, crypto/sha256 identities and crypto/x509 CheckSignature; no incremental model",
 			"node identity = SHA-256(SPKI||subject), certificate identity = SHA-256(DER) (both asserted equal to zcrypto's at start-up)",
 			"VerifDump (hook, tag verif) faithfully reports the unexported fields; the public accessors are checked against the same expectations independently",
 			"one key (K3) appears under two subject names (N_I, N_Y): a node that verifies a certificate without carrying its issuer name is not a candidate issuer",
+			"seven nodes carry the name of a real issuer (N_R, N_I) and a key no signature of the universe verifies under (hand-encoded SubjectPublicKeyInfo spliced into a minted certificate, signed again by the real parent key): whether such a node verifies is decided by crypto/x509 like for every other node (it never does); a DSA key without parameters and an EC key on an unknown curve cannot be nodes, zcrypto and crypto/x509 both refuse to parse such certificates",
 			"no two distinct (subject,SPKI) nodes with the issuer name verify the same certificate in this universe, so the permitted issuer ambiguity never arises (asserted: outcome class 'several candidate issuers' stays 0)")
 		var legend []string
 		for _, uc := range ed.certs {
 			legend = append(legend, uc.name+": "+uc.what)
 		}
 		c.Set("universe", legend)
+		c.Set("unusable_key_nodes", ed.unusable)
 
 		bfs := func(u *universe, label string, ops []op, depth int) ev.BFSResult {
 			res := c.BFS(len(ops), depth, func(h []int) (string, bool) { return u.run(c, bk, ops, h, true) })
@@ -1091,7 +1217,7 @@ func main() {
 		// pair coverage of the hand-picked list (evidence only)
 		{
 			pairs := map[[2]int]bool{}
-			for _, names := range handPicked {
+			for _, names := range append(append([][]string{}, unusableSubs...), handPicked...) {
 				if len(names) != 7 {
 					c.Broken("sub-universe %v does not have 7 elements", names)
 				}
@@ -1108,28 +1234,47 @@ func main() {
 
 		// Part A: 7-element sub-universes, depth 8 (one more than 7: the search then closes, every
 		// reachable state has had every operation applied).
-		// (the two sub-universes with the key under two names first: a budget stop must not drop them)
+		// (the sub-universes with the keys that cannot verify and the two with the key under two names first: a
+		// budget stop must not drop them)
+		runSubs(ed, unusableSubs, 8)
 		runSubs(ed, handPicked[12:], 8)
 		runSubs(ed, handPicked[:12], 8)
 		if !c.Quick() {
 			// twin shapes: the CA keys K1..K6 are RSA (zcrypto's own rsa package verifies) resp. ECDSA on
 			// four different curves (a waiting edge is then also tried against keys of another curve).
+			runSubs(uni("rsa"), unusableSubs, 8)
+			runSubs(uni("ecdsa"), unusableSubs, 8)
 			runSubs(uni("rsa"), handPicked, 8)
 			runSubs(uni("ecdsa"), handPicked[:6], 8)
 		}
 		// Part B (last, it is the expensive one in thorough): the whole universe, every history up to a depth (= the union of the searches of all
 		// sub-universes of that size, states shared between them).
-		depthAll := ev.Pick(c, 4, 7)
+		wholeRes := map[string]any{}
+		whole := func(label string, names []string, depth int) {
+			t0 := time.Now()
+			res := bfs(ed, label, ed.opsFor(names, c), depth)
+			n := len(names)
+			wholeRes[label] = map[string]any{"wall": time.Since(t0).Round(10 * time.Millisecond).String(), "ops": 2 * n, "depth": depth, "depth_completed": res.Depth, "states": res.States, "histories": res.Edges,
+				"covers": fmt.Sprintf("every history of length <= %d over these %d operations, i.e. the depth-%d search of every one of the C(%d,%d) sub-universes of that size", res.Depth, 2*n, res.Depth, n, res.Depth)}
+		}
 		{
-			var all []string
+			var all, usable []string
 			for _, uc := range ed.certs {
 				all = append(all, uc.name)
+				if ed.nodes[uc.node].unusable == "" && uc.name != "Bu" {
+					usable = append(usable, uc.name)
+				}
 			}
-			t0 := time.Now()
-			res := bfs(ed, "all", ed.opsFor(all, c), depthAll)
-			c.Set("whole_universe", map[string]any{"wall": time.Since(t0).Round(10 * time.Millisecond).String(), "ops": 2 * nU, "depth": depthAll, "depth_completed": res.Depth, "states": res.States, "histories": res.Edges,
-				"covers": fmt.Sprintf("every history of length <= %d over all %d operations, i.e. the depth-%d search of every one of the C(%d,%d) sub-universes of that size", res.Depth, 2*nU, res.Depth, nU, res.Depth)})
+			if c.Quick() {
+				whole(fmt.Sprintf("all %d certificates", len(all)), all, 3)
+				whole(fmt.Sprintf("the %d certificates with usable keys", len(usable)), usable, 4)
+			} else {
+				// the deeper search first: should the budget be hit, the shallower one over the larger universe is cut
+				whole(fmt.Sprintf("the %d certificates with usable keys", len(usable)), usable, 7)
+				whole(fmt.Sprintf("all %d certificates", len(all)), all, 5)
+			}
 		}
+		c.Set("whole_universe", wholeRes)
 		c.Set("sub_universes", subs)
 		c.Set("all_sub_universe_searches_closed", allClosed)
 		c.Set("sets_compared_for_order_independence", len(bk.order))
